@@ -4596,11 +4596,11 @@ class PyCdlib:
         # If we made it here, we have successfully updated all of the in-memory
         # metadata.  Now we can go and modify the on-disk file.
 
-        self._seek_to_extent(self.pvd.extent_location())
-
-        # First write out the PVD.
+        # First write out the PVD; duplicate PVDs have to stay identical to it.
         rec = self.pvd.record()
-        self._cdfp.write(rec)
+        for pvd in self.pvds:
+            self._seek_to_extent(pvd.extent_location())
+            self._cdfp.write(rec)
 
         # Write out the joliet VD.
         if self.joliet_vd is not None:
